@@ -231,3 +231,16 @@ class MatrixAsCompactJson(Contract):
         for i in range(n):
             for j in range(n):
                 yield (f"element[{i}][{j}]-numerically-equal-to-the-input", v[i][j] == self.M[i][j])
+
+
+# ---- native replay adapters (scenario sweeps on the real code, contracts/_native.py)
+
+from . import _native  # noqa: E402
+
+
+def _use(fn):
+    return lambda self, model, cfg, ob_name: fn()
+
+
+NiftiToNeuroglancer.replay = _use(_native.transform_sweep)
+NibabelImageToInfo.replay = lambda self, model, cfg, ob_name: (_native.info_dtype_sweep() if "data_type" in ob_name else _native.transform_sweep())
